@@ -143,7 +143,8 @@ class Equiv:
                     and all(self.stmts(x.body, y.body) for x, y in zip(a.handlers, b.handlers))
                 )
             if isinstance(a, FuncT):
-                return Equiv(a, b).function()
+                # parameters of nested functions are local names of the enclosing function
+                return Equiv(_canon_params(a), _canon_params(b)).function()
         live = self.live_outside(segA, segB)
         return _same(_fingerprint(segA, live, tail, self.captured), _fingerprint(segB, live, tail, self.captured))
 
@@ -197,6 +198,21 @@ class Equiv:
         return n
 
 
+def _canon_params(fn):
+    import copy
+
+    f = copy.deepcopy(fn)
+    a = f.args
+    plist = [*a.posonlyargs, *a.args, *a.kwonlyargs] + ([a.vararg] if a.vararg else []) + ([a.kwarg] if a.kwarg else [])
+    ren = {p.arg: f"_p{i}" for i, p in enumerate(plist)}
+    for n in ast.walk(f):
+        if isinstance(n, ast.Name) and n.id in ren:
+            n.id = ren[n.id]
+        elif isinstance(n, ast.arg) and n.arg in ren:
+            n.arg = ren[n.arg]
+    return f
+
+
 def partial_normalise(cur_fn, ref_fn) -> int:
     try:
         e = Equiv(cur_fn, ref_fn)
@@ -224,6 +240,17 @@ def _same_args(a: ast.arguments, b: ast.arguments) -> bool:
 
 def equivalent(cur_fn, ref_fn) -> bool:
     try:
-        return Equiv(cur_fn, ref_fn).function()
+        if Equiv(cur_fn, ref_fn).function():
+            return True
+        # closures that are only called directly are a matter of code organisation: compare with them inlined
+        import copy
+
+        from hsa.inline import inline_local_closures
+
+        c, r = copy.deepcopy(cur_fn), copy.deepcopy(ref_fn)
+        nc, nr = inline_local_closures(c), inline_local_closures(r)
+        if nc or nr:
+            return Equiv(c, r).function()
+        return False
     except RecursionError:
         return False
